@@ -139,7 +139,8 @@ def make_wrapper(world, twins, contract, target, orig, is_static, needs_self):
             for r in contract.raises:
                 st["whens"][id(r)] = bool(ctx.eval(r.when, env)) if r.when else True
                 for e in r.ensures:
-                    st["olds"][e] = ctx.eval_olds(e, env)
+                    if not e.startswith("ghost:"):
+                        st["olds"][e] = ctx.eval_olds(e, env)
             if selfobj is not None:
                 for f in frame_fields:
                     if hasattr(selfobj, f):
@@ -174,6 +175,8 @@ def make_wrapper(world, twins, contract, target, orig, is_static, needs_self):
                     for r in ms:
                         if st["whens"].get(id(r), True):
                             for k, e in enumerate(r.ensures):
+                                if e.startswith("ghost:"):
+                                    continue
                                 if not ctx.eval(e, env, st["olds"].get(e)):
                                     REC.add(Violation("post-exc", short, f"{r.exc}:ensures#{k}", e, call=_describe(env)))
             selfobj = st["self"]
